@@ -111,9 +111,17 @@ class SqlModel:
       if not isinstance(c, ast.Call):
         continue
       d = dotted(c.func) or ''
-      if not (d.endswith('_write_or_rollback') or d.endswith('_connection.execute') or d.endswith('.execute')) or not c.args:
+      last = d.rsplit('.', 1)[-1]
+      if d.endswith('.execute') and c.args:
+        args = [c.args[0]]
+      elif last.startswith('_') and not last.startswith('__') and d in (last, f'self.{last}'):
+        # a private wrapper handed a statement (the rollback wrapper, whatever it is called)
+        args = [a for a in c.args if self.eval(a, c) is not None]
+      else:
         continue
-      a = c.args[0]
+      if not args:
+        continue
+      a = args[0]
       cands = [a]
       if isinstance(a, ast.Name):
         # loop variable over a literal collection of queries
